@@ -121,7 +121,10 @@ let pobs (o : obs) : string =
   match o with
   | OUnit -> ""
   | ONum x -> nstr x
-  | OHeader h -> Printf.sprintf "H(%d,%d,%d,%d,%d,%d)" (ni h.h_id) (ni h.h_flags) (ni h.h_qd) (ni h.h_an) (ni h.h_ns) (ni h.h_ar)
+  | OHeader h ->
+    let f = h.h_flags in let b x = if x then 1 else 0 in
+    Printf.sprintf "H(%d,%d,%d,%d,%d,%d|%d,%d,%d,%d,%d,%d,%d)" (ni h.h_id) (ni h.h_flags) (ni h.h_qd) (ni h.h_an) (ni h.h_ns) (ni h.h_ar)
+      (b (flag_qr f)) (ni (flag_opcode f)) (b (flag_aa f)) (b (flag_tc f)) (b (flag_rd f)) (b (flag_ra f)) (ni (flag_rcode f))
   | OQuestion (nm, qt, qc) -> Printf.sprintf "Q(%s,%d,%d)" (hex nm) (ni qt) (ni qc)
   | OMarker m -> pmarker m
   | OHeaderN (nm, m) -> Printf.sprintf "HN(%s,%s)" (hex nm) (pmarker m)
